@@ -54,7 +54,7 @@ Then write into `{out}/`:
 - `demo.py`: a small self-contained Python program (stdlib + bibtexparser only, imports bibtexparser from PYTHONPATH) that exercises the public API and **exits with status 1 (printing what went wrong) when the property is violated and status 0 when it holds**. It must exit 1 on your changed tree and 0 on the unchanged tree. It must state the property's expectation directly (e.g. compare with what the property text demands), not compare against hard-coded output of the old code where avoidable.
 - `meta.json`: {{"property": "{pid}", "summary": "<what was changed, 1-3 sentences>", "needs": "<what is required for the violation to manifest>", "files": [<changed files>], "test_suite": "<last line of pytest output with your change>"}}
 
-Verify all of it yourself before finishing: run the suite with the change; run demo.py with the change (rc 1); `git -C {wt} stash`, run demo.py (rc 0), `git -C {wt} stash pop`. Leave the worktree with your change applied. Your final message should be 3-6 lines: what you changed, the trigger, and the verification results.
+Verify all of it yourself before finishing: run the suite with the change; run demo.py with the change (rc 1); undo the change with `git -C {wt} diff > {out}/patch.diff && git -C {wt} apply -R {out}/patch.diff`, run demo.py (rc 0), re-apply with `git -C {wt} apply {out}/patch.diff` (do NOT use `git stash`: the stash is shared between all worktrees of the repository and other people are working in sibling worktrees). Leave the worktree with your change applied. Your final message should be 3-6 lines: what you changed, the trigger, and the verification results.
 """
     open("/tmp/%s_%s_prompt.md" % (prefix, pid), "w").write(txt)
     print(pid, wt)
